@@ -182,7 +182,7 @@ func init() {
 		select {
 		case <-h.Done():
 			closed = true
-		case <-time.After(300 * time.Millisecond):
+		case <-time.After(3 * time.Second): // generous: it returns as soon as the handler is done
 		}
 		stacks := ""
 		if !closed && os.Getenv("DVERIF_STACKS") != "" {
